@@ -1346,6 +1346,14 @@ def gen_est_extreme(rng, kind=None):
                     case["qexp"] = _gen_exps(rng, dtype, B, n, V, _exp_lim(rng, n, V))
                     if V == 3 or n == 2:
                         case["M"] = 1
+                if case["self_norm"] and n == 1 and V == 2 and rng.random() < 0.6:
+                    # log-weights of the two outcomes more than 745 nats apart (exp of the difference underflows to 0):
+                    # p ~ 1 - 2^-e against q ~ 2^-e' gives log p/q = +e' ln 2 on outcome 1 and -e ln 2 on outcome 0
+                    sg = rng.choice([1, -1])
+                    wrap = (lambda e: [e]) if dtype == "bern" else (lambda e: [[e, 0]])
+                    case["pexp"] = [wrap(sg * rng.randint(540, 600)) for _ in range(B)]
+                    case["qexp"] = [wrap(-sg * rng.randint(540, 600)) for _ in range(B)]
+                    case["M"] = 2
             else:
                 case["qtheta"] = case["theta"]
                 if "pexp" in case:
@@ -1424,6 +1432,10 @@ def gen_dist_extreme(rng):
             for row in case["lext"]:
                 if not any(row):
                     row[rng.randrange(V)] = -rng.choice(mags)
+                if rng.random() < 0.4:
+                    # classes more than 745 nats apart: exp underflows to 0 in float64, log_softmax must not go through it
+                    a, b = rng.sample(range(V), 2)
+                    row[a], row[b] = rng.choice([500, 800]), -rng.choice([500, 800])
         m = B * (1 if dtype == "bern" else V)
         case["u"] = [rng.randint(1, 63) for _ in range(m)]
         case["v"] = [rng.randint(1, 63) for _ in range(m)]
